@@ -1,6 +1,129 @@
-(* placeholder while the proofs are being written *)
-From Coq Require Import String List Bool.
-From NG Require Import Gen.C03Consts Pipe.Faults.
-Theorem C03_tmp : dispatch_reraises = false.
-Proof. exact eq_refl. Qed.
-Print Assumptions C03_tmp.
+(* C03 - Failing actions are contained and rails fail closed.
+   Property theorems only; every proof is `exact <lemma>`; Print Assumptions beneath each.
+   Model: Pipe/Faults.v.  The theorems marked (now) are about the machine instantiated with the
+   flags READ FROM THE CURRENT SOURCE (Gen/C03Consts.v): dispatcher re-raises or not, internal-error
+   event list, whether compute_context applies hide_prev_turn, whether guardrails.co resets
+   $output_rails_in_progress when the output rails fail, whether errors raised while an action event
+   is created are contained.  If the source loses one of these the `eq_refl` below stops checking. *)
+From Coq Require Import String List Bool Arith.
+From NG Require Import Gen.C03Consts Pipe.Faults Pipe.Faults_proofs.
+Import ListNotations.
+Open Scope string_scope.
+Open Scope list_scope.
+
+(* (T) what the source says today *)
+Theorem C03_source_facts :
+  dispatch_reraises = false /\ dispatch_failed_status = v1_failed_status_test /\
+  dispatch_failed_status = v2_failed_status_test /\ v1_match_requires_success = true /\
+  ie_has_hide = true /\ ie_utterances = [v1_internal_error_message] /\
+  v1_context_honours_hide = true /\ v2_flag_reset_on_failure = true.
+Proof. exact (conj eq_refl (conj eq_refl (conj eq_refl (conj eq_refl (conj eq_refl (conj eq_refl (conj eq_refl eq_refl))))))). Qed.
+Print Assumptions C03_source_facts.
+
+(* generate returns: for ALL fault sets (any script: any subset of call sites and occurrences, in
+   any number of turns), any history, whatever the other flags are - no turn has the exceptional
+   outcome.  Colang 1.0 / 2.x.  (LLM provider failures are not part of the model.) *)
+Theorem C03_returns_v1 :
+  forall sc user_text llm_text refusal cfg n t rh,
+    Forall (fun o => o_res o <> TEscapes) (fst (conv_v1_now sc user_text llm_text refusal cfg t n rh)).
+Proof. exact (conv_v1_returns v1_context_honours_hide). Qed.
+Print Assumptions C03_returns_v1.
+
+Theorem C03_returns_v2 :
+  forall sc user_text llm_text refusal cfg t st,
+    fst (fst (turn_v2_now sc user_text llm_text refusal cfg t st)) <> TEscapes.
+Proof. exact (turn_v2_returns v2_flag_reset_on_failure v2_action_event_errors_contained). Qed.
+Print Assumptions C03_returns_v2.
+
+(* no poison, Colang 1.0 (now): from the start of a conversation, whatever faults and verdicts
+   occurred, turn i is EXACTLY the turn a fresh conversation would have (reply, rail calls, LLM
+   calls: `spec_turn` does not look at the history), every turn replies, and the gate invariant
+   (flows' history defined, $skip_output_rails off) holds again.  Unbounded number of turns. *)
+Theorem C03_no_poison_v1 :
+  forall sc user_text llm_text refusal cfg n,
+    fst (conv_v1_now sc user_text llm_text refusal cfg 0 n [])
+    = map (fun i => obs_of (spec_turn sc user_text llm_text refusal cfg i)) (seq 0 n)
+    /\ inv (snd (conv_v1_now sc user_text llm_text refusal cfg 0 n [])).
+Proof. exact (fun sc ut lt rf cfg n => conv_v1_memoryless sc ut lt rf cfg eq_refl eq_refl n 0 [] inv_nil). Qed.
+Print Assumptions C03_no_poison_v1.
+
+(* ... and the reply of a turn is the internal-error message, the refusal or the LLM text *)
+Theorem C03_reply_classes_v1 :
+  forall sc user_text llm_text refusal cfg t,
+    let r := fst (fst (spec_turn sc user_text llm_text refusal cfg t)) in
+    r = TReply ie_utterances \/ r = TReply [refusal] \/ r = TReply [llm_text t].
+Proof. exact spec_turn_reply. Qed.
+Print Assumptions C03_reply_classes_v1.
+
+(* fail closed, Colang 1.0: the LLM text is returned only if every input rail and every output
+   rail was consulted and accepted - a rail that raises (or rejects) never lets it through *)
+Theorem C03_fail_closed_v1 :
+  forall sc user_text llm_text refusal cfg t,
+    TReply [llm_text t] <> TReply ie_utterances -> llm_text t <> refusal ->
+    fst (fst (spec_turn sc user_text llm_text refusal cfg t)) = TReply [llm_text t] ->
+    (forall k, k < n_in cfg -> sc t (SIn k) 0 = OAccept) /\ (forall k, k < n_out cfg -> sc t (SOut k) 0 = OAccept).
+Proof. exact spec_turn_llm_only_if_all_accept. Qed.
+Print Assumptions C03_fail_closed_v1.
+
+(* ... and a raising input rail yields the fixed internal-error message *)
+Theorem C03_fail_closed_v1_message :
+  forall sc user_text llm_text refusal cfg t k,
+    k < n_in cfg -> (forall i, i < k -> sc t (SIn i) 0 = OAccept) -> sc t (SIn k) 0 = ORaise ->
+    fst (fst (spec_turn sc user_text llm_text refusal cfg t)) = TReply ie_utterances.
+Proof. exact spec_turn_input_rail_raises. Qed.
+Print Assumptions C03_fail_closed_v1_message.
+
+(* Colang 2.x (now): one turn from a clean state replies, leaves a clean state (so the next turn
+   runs all rails), returns the LLM text only if all input and output rails accepted; a raising
+   rail is a rejection (None is not allowed): the reply is the refusal.
+   Premise `dialog_faults_harmless`: EITHER the source contains errors raised while an action event
+   is created (flag read from statemachine.py; then the premise holds by computation for every
+   script), OR no dialog action raises (named exclusion, see C03_v2_dialog_fault_refuted). *)
+Definition dialog_faults_harmless (sc : script) : Prop :=
+  v2_action_event_errors_contained = true \/ forall i, sc i SDialog 0 <> ORaise.
+
+Theorem C03_fail_closed_v2 :
+  forall sc user_text llm_text refusal cfg t,
+    dialog_faults_harmless sc ->
+    let x := turn_v2_now sc user_text llm_text refusal cfg t clean in
+    snd (fst x) = clean /\
+    (fst (fst x) = TReply [refusal] \/ fst (fst x) = TReply [llm_text t] \/ fst (fst x) = TReply []) /\
+    (llm_text t <> refusal -> fst (fst x) = TReply [llm_text t] ->
+     (forall k, k < n_in cfg -> sc t (SIn k) 0 = OAccept) /\ (forall k, k < n_out cfg -> sc t (SOut k) 0 = OAccept)) /\
+    (fst (fst x) = TReply [] -> sc t SDialog 0 = ORaise).
+Proof.
+  exact (fun sc ut lt rf cfg t H =>
+           turn_v2_clean v2_flag_reset_on_failure v2_action_event_errors_contained sc ut lt rf cfg t eq_refl
+                         (match H with or_introl e => or_introl e | or_intror f => or_intror (f t) end)).
+Qed.
+Print Assumptions C03_fail_closed_v2.
+
+Theorem C03_no_poison_v2 :
+  forall sc user_text llm_text refusal cfg n,
+    dialog_faults_harmless sc ->
+    snd (conv_v2_now sc user_text llm_text refusal cfg 0 n clean) = clean /\
+    List.length (fst (conv_v2_now sc user_text llm_text refusal cfg 0 n clean)) = n /\
+    Forall (fun o => exists us, o_res o = TReply us) (fst (conv_v2_now sc user_text llm_text refusal cfg 0 n clean)).
+Proof. exact (fun sc ut lt rf cfg n H => conv_v2_clean v2_flag_reset_on_failure v2_action_event_errors_contained sc ut lt rf cfg n 0 eq_refl H). Qed.
+Print Assumptions C03_no_poison_v2.
+
+(* regression documentation: the statements are false of the code as it was *)
+Theorem C03_v1_stale_context_refuted :
+  sc_stale 2 (SIn 0) 0 = OReject /\
+  nth_error (map o_res (fst (conv_v1 false false sc_stale (fun _ => "user") (fun _ => "LLM") "REFUSED" (mkV 2 2 true) 0 3 [])))
+            2 = Some (TReply ["LLM"]).
+Proof. exact v1_stale_context_witness. Qed.
+Print Assumptions C03_v1_stale_context_refuted.
+
+Theorem C03_v2_flag_refuted :
+  sc_outblock 1 (SOut 0) 0 = OReject /\
+  nth_error (fst (conv_v2 false false true sc_outblock (fun _ => "user") (fun _ => "LLM") "REFUSED" (mkV 2 2 true) 0 2 (mkS2 false false)))
+            1 = Some (mkObs (TReply ["LLM"]) [(SIn 0, Some "user"); (SIn 1, Some "user"); (SRet, None); (SDialog, None)] 0).
+Proof. exact v2_flag_witness. Qed.
+Print Assumptions C03_v2_flag_refuted.
+
+Theorem C03_v2_dialog_fault_refuted :
+  nth_error (fst (conv_v2 false true false sc_gen (fun _ => "user") (fun _ => "LLM") "REFUSED" (mkV 2 2 true) 0 2 (mkS2 false false)))
+            1 = Some (mkObs (TReply []) [] 0).
+Proof. exact v2_dialog_witness. Qed.
+Print Assumptions C03_v2_dialog_fault_refuted.
